@@ -853,6 +853,14 @@ func genWS(r *rand.Rand, scale int, emit func(string)) {
 		emit(wsLine("badparam", randScript(r), "/v1/get/abc?f_int32="+common.Pick(r, badParamMarkers), "", "wait", nil))
 		count("ws-badparam")
 	}
+	// error messages quoting long multi-byte client input (close reason must stay valid UTF-8)
+	for i := 0; i < 6*scale; i++ {
+		long := strings.Repeat(common.Pick(r, []string{"%E2%82%AC", "%C3%A9", "%F0%9F%98%80"}), 20+r.Intn(40)) + strings.Repeat("a", r.Intn(3))
+		emit(wsLine("none", randScript(r), "/v1/ws/unary/nobody/"+long, "", "wait", nil))
+		emit(wsLine("none", randScript(r), "/v1/get/abc?f_int32="+strings.Repeat("b", r.Intn(3))+long, "", "wait", nil))
+		emit(wsLine("none", randScript(r), "/v1/ws/unary/enum", "", "wait", []string{fr('T', []byte("{\""+strings.Repeat("€", 30+r.Intn(30))))}))
+		count("ws-longutf8")
+	}
 	// gRPC-WebSocket
 	gwsHdr := "Sec-WebSocket-Protocol: grpc-websockets\r\n"
 	mdFrames := []string{"", "a: b\r\n", "grpc-timeout: 1S\r\n", "x-a: 1\r\nx-a: 2\r\n", "content-type: application/grpc-web+proto\r\nx-grpc-web: 1\r\n"}
@@ -1025,6 +1033,16 @@ func genCores(r *rand.Rand, scale int, emit func(string)) {
 	}
 	for c := 0; c <= 20; c++ {
 		emit(fmt.Sprintf("hst %d", c))
+	}
+	// close reason truncation (valid UTF-8 messages around the 123-byte limit)
+	runes := []string{"a", "é", "€", "😀", " ", "\""}
+	for i := 0; i < 120*scale; i++ {
+		var sb strings.Builder
+		want := common.Pick(r, []int{0, 5, 100, 118, 120, 121, 122, 123, 124, 125, 126, 127, 130, 200, 400})
+		for sb.Len() < want {
+			sb.WriteString(common.Pick(r, runes))
+		}
+		emit("wstrunc " + hx(sb.String()))
 	}
 	// traverseFieldPath
 	elems := []string{"f_nested", "o_nested", "w_ts", "w_struct", "w_any", "f_string", "f_int32", "f_enum", "o_string", "p_int32", "r_nested", "r_int32", "m_ss", "m_sn",
